@@ -48,11 +48,19 @@ Fixpoint judge_checks (idx : nat) (l : list vcheck) : verdict :=
       end
   end.
 
+(* ground truth alone (needs no model of the value): used for values whose numbers lie outside
+   the model's exact class, e.g. integer literals beyond 2^53 *)
+Fixpoint ground_truth_checks (idx : nat) (l : list vcheck) : verdict :=
+  match l with
+  | [] => Pass
+  | c :: r => if negb (Bool.eqb (vc_impl_valid c) (vc_expect c)) then SpecFail (10 * idx + 1) else ground_truth_checks (S idx) r
+  end.
+
 Definition judge_c06 (c : c06case) : verdict :=
   match c with
   | mk_c06 text code ih iid checks =>
       match value_of_text text with
-      | None => OutOfDomain 0
+      | None => match ground_truth_checks 1 checks with Pass => OutOfDomain 0 | v => v end
       | Some v =>
           let m := if (code <? 0)%Z then None else calc_mh v (Z.to_N code) in
           if negb (opt_str_eqb m ih) then SpecFail 5
